@@ -379,7 +379,7 @@ def _r3(model, res, c, m, f, root):
 def _r3_table_interp(model, res, c, em, fm, site, singles):
     """from_message decided on its own code: it is run on an arbitrary argument; the traces enumerate the table (one per key the
     lookup can hit, plus the default).  Returns False when the function is not in a shape the interpreter follows precisely."""
-    from ..absint import Interp, Func, Sym, Err, Unmodelled
+    from ..absint import Interp, Func, Sym, Err, Unmodelled, Atom, Const
     try:
         outs = Interp(model).run(lambda interp, st: interp.call(Func(em, fm), [Sym(None, 'X')]))
     except Unmodelled:
@@ -392,16 +392,37 @@ def _r3_table_interp(model, res, c, em, fm, site, singles):
     default = []
     for o in outs:
         key = None
+        eq_seen = False
         for (t, alt, subj) in o.notes:
             if ' hits' in t:
                 key = alt
+            elif isinstance(subj, Atom) and subj.op == 'eq' and len(subj.args) == 2:
+                # a search that compares the known codes one by one with str(argument)
+                cs = [a for a in subj.args if isinstance(a, Const) and isinstance(a.value, str)]
+                other = [a for a in subj.args if not isinstance(a, Const)]
+                if len(cs) == 1 and len(other) == 1 and 'X' in repr(other[0]):
+                    eq_seen = True
+                    if alt is True:
+                        key = repr(cs[0].value)
+        if key is None and eq_seen:
+            key = '<default>'
         if o.kind != 'return':
             res.ob('R3', site, 'trace %s' % key, False, 'raises %r' % (o.value,))
             res.violation('R3', '%s:may-raise' % site, em.where(fm),
                           'from_message is called inside parse()\'s exception handler and can itself raise: %r' % (o.value,), func='from_message')
             continue
         if key is None:
-            return False
+            # a trace that never consulted the table
+            if isinstance(o.value, Err) and o.value.message in NINE:
+                res.ob('R3', site, 'trace %s' % [t for (t, a_, s_) in o.notes], True, 'returns the singleton %r' % (o.value,))
+                continue
+            conds = ' & '.join('%s=%s' % (t, a_) for (t, a_, s_) in o.notes)
+            res.ob('R3', site, 'trace %s' % conds, False, 'returns %r' % (o.value,))
+            res.violation('R3', '%s:not-canonical' % site, em.where(fm),
+                          'from_message returns %r without consulting the table (when %s): a value that is not one of the nine canonical '
+                          'singletons - e.g. an XLError built by a host callback - reaches the error field with its own message'
+                          % (o.value, conds or 'always'), func='from_message')
+            continue
         if key == '<default>':
             default.append(o.value)
         else:
